@@ -84,6 +84,7 @@ func c01(r *core.Run) {
 	r.Rule("A1", "retire atomically: every unregistering delete(S.rwork, ..) is reached only with 'queue observed exhausted (len(W.queue) <= consumed index)' established after the last lock acquire, with no release point in between", 1)
 	r.Rule("A2", "lookup-then-register atomically: in enqueue the append-to-existing-item and the register+push are in the same critical section as the map lookup, the existing item is the lookup's result, the decision is controlled by the lookup's ok, and a grouped (id != \"\") new item is registered before it is pushed", 4)
 	r.Rule("A3", "pop atomically: in the worker loop 'non-empty observed' -> read of element 0 -> store dropping the head -> call of drain(on that element) happen without a release point, and drain is entered and left with the lock Held", 3)
+	r.Rule("H1", "restart safety (start/stop/start histories): Shutdown declares the service stopped only after a synchronous, unconditional WaitGroup.Wait for all workers, and serve re-creates the group registry before any worker of the new run starts - so a callback of the previous run cannot overlap one of the next", 2)
 	r.Rule("F1", "funnel: every callback-kind dynamic call (handlers, With*/query callbacks, queue elements) is reachable only through the closure handed to enqueue / the drain loop; documented exceptions are named", 6)
 	r.Rule("F2", "group argument: at every call site of enqueue the group id is the routed Match.Group (resource name when no match), a Resource's Group(), or WithGroup's own parameter; resource.group is only written from Match.Group and Match.Group only from the registered group's toString", 8)
 
@@ -140,6 +141,8 @@ func c01(r *core.Run) {
 	c01Enqueue(r, a, e)
 	// ---- A3 ----------------------------------------------------------------
 	c01Pop(r, a, e)
+	// ---- H1 ----------------------------------------------------------------
+	c01Restart(r, a, root)
 	// ---- F1/F2 -------------------------------------------------------------
 	c01Funnel(r, a, root)
 	c01GroupArg(r, a, root)
@@ -1095,4 +1098,57 @@ func classifyGroupArg(arg ssa.Value, c ssa.CallInstruction, a *svcAnchors, match
 		return "Match.Group", true
 	}
 	return valDesc(arg), false
+}
+
+// c01Restart: exclusion across start/stop/start cycles.
+func c01Restart(r *core.Run, a *svcAnchors, root []*ssa.Function) {
+	p := r.P
+	ops, _ := stateOps(root, a)
+	var started int64 = -1
+	for _, op := range ops {
+		if op.Op == "store" && op.Fn == a.Serve {
+			started = op.New
+		}
+	}
+	var shutdown *ssa.Function
+	var storeStopped ssa.Instruction
+	for _, op := range ops {
+		if op.Op == "cas" && op.Old == started {
+			shutdown = op.Fn
+		}
+	}
+	if shutdown == nil {
+		r.Unres("H1", "shutdown", "no function performs the stop transition")
+		return
+	}
+	for _, op := range ops {
+		if op.Fn == shutdown && op.Op == "store" {
+			storeStopped = op.Instr
+		}
+	}
+	var wait ssa.Instruction
+	for _, c := range core.Calls(shutdown) {
+		if cal := c.Common().StaticCallee(); cal != nil && cal.String() == "(*sync.WaitGroup).Wait" && !core.IsGo(c) && !core.IsDefer(c) {
+			if f, ok := core.FieldOf(c.Common().Args[0]); ok && f == a.WG {
+				wait = c
+			}
+		}
+	}
+	r.Check(wait != nil && storeStopped != nil && core.Dominates(wait, storeStopped), "H1", core.FuncName(shutdown), "stopped-only-after-all-workers-exited", posOf(p, storeStopped),
+		"Store(stopped) is dominated by a plain WaitGroup.Wait on the worker group", "the service can be declared stopped (and served again) while a worker of this run is still inside a callback: after the restart the same group can run on two workers at once")
+	var firstGo ssa.Instruction
+	for _, c := range core.Calls(a.Serve) {
+		if core.IsGo(c) && firstGo == nil {
+			firstGo = c
+		}
+	}
+	fresh := false
+	for _, ac := range core.FieldAccesses([]*ssa.Function{a.Serve}, func(f core.Field) bool { return f == a.RWork }) {
+		if ac.Kind == "store" && firstGo != nil && core.Dominates(ac.Instr, firstGo) {
+			if _, ok := ac.Instr.(*ssa.Store).Val.(*ssa.MakeMap); ok {
+				fresh = true
+			}
+		}
+	}
+	r.Check(fresh, "H1", core.FuncName(a.Serve), "fresh-registry-before-workers", p.Pos(a.Serve.Pos()), "every run starts with a new, empty group registry created before the first worker", "the group registry is not unconditionally re-created before the workers start: entries of the previous run would survive and their groups would never be scheduled again")
 }
